@@ -150,6 +150,15 @@ def build_record(rng, case, L, p, mutate):
         tag0 = mac_of(case, header(case['seq'], case['ty'], ver, 0))
         q = tag0[-1]
         data = bytearray(tag0 + bytes([q]) * q)
+    elif mutate == 'padlen-block':
+        data[-1] = (data[-1] + case['bs'] * rng.randrange(1, 4)) & 0xff
+    elif mutate == 'overlap-aligned':
+        # shortest block-aligned body whose padding claims to reach into the MAC
+        tag0 = mac_of(case, header(case['seq'], case['ty'], ver, 0))
+        bsz = case['bs']
+        tot = -(-(ds + 1) // bsz) * bsz
+        q = tot - ds                       # pad length byte such that n = ds + q
+        data = bytearray(tag0[:ds - 1] + bytes([q]) * (tot - ds + 1))
     elif mutate == 'allpad':
         q = rng.choice([n - 1, n, n + 1, 255, ds, ds + 1]) & 0xff
         data = bytearray([q] * n)
@@ -172,6 +181,21 @@ def gen_cases(ctx, n_cases, maxlen, real_frac):
         for (alg, ds, mbs) in ALGS:
             c = dict(mac=alg, ds=ds, mbs=mbs, key=bytes(range(1, 17)), seq=bytes(8), ty=23, ver=ver, bs=16)
             cases.append(build_record(rng, c, 0, 0, 'overlap'))
+    # boundary stream: MAC position on / next to the first hashed block boundary
+    # (n = 256 + ds + k*mac_block + d with pad length 255 - e), toy MAC, long bodies
+    for k in range(0, 3):
+        for d in (-2, -1, 0, 1, 2):
+            for e in (0, 1, 2):
+                ver = rng.choice(VERSIONS[1:])
+                ds = rng.choice([16, 20, 32, 48])
+                mbs = 128 if ds == 48 else 64
+                L = k * mbs + d + e
+                if L < 0 or len(cases) >= n_cases // 2:
+                    continue
+                c = dict(mac='toy%d' % ds, ds=ds, mbs=mbs, key=bytes(rng.randrange(256) for _ in range(16)),
+                         seq=bytes(rng.randrange(256) for _ in range(8)), ty=23, ver=ver, bs=16)
+                cases.append(build_record(rng, c, L, 255 - e,
+                                          rng.choice(['none', 'flip-mac', 'flip-data', 'last-mac-byte', 'first-pad-byte'])))
     while len(cases) < n_cases:
         ver = rng.choice(VERSIONS)
         bs = rng.choice([8, 16])
@@ -198,6 +222,74 @@ def gen_cases(ctx, n_cases, maxlen, real_frac):
     return cases
 
 
+# --------------------------------------------------------------------------
+# record-layer level: the call site in RecordLayer._decryptThenMAC (arguments, block size of the
+# negotiated cipher, stripping of padding and MAC) against the same direct specification
+CIPHERS = [('aes128', 16, 16), ('aes256', 32, 16), ('3des', 24, 8)]
+
+
+def mk_cipher(name, key, iv):
+    from tlslite.utils import cipherfactory as cf
+    if name == '3des':
+        return cf.createTripleDES(bytearray(key), bytearray(iv), ['python'])
+    return cf.createAES(bytearray(key), bytearray(iv), ['python'])
+
+
+def record_level_case(rng):
+    ver = rng.choice(VERSIONS)
+    cname, klen, bs = rng.choice(CIPHERS)
+    alg, ds, mbs = rng.choice(ALGS[:2] if ver == (3, 0) else ALGS)
+    c = dict(mac=alg, ds=ds, mbs=mbs, key=bytes(rng.randrange(256) for _ in range(ds)),
+             seq=None, ty=rng.choice([20, 21, 22, 23]), ver=ver, bs=bs, cipher=cname,
+             ckey=bytes(rng.randrange(256) for _ in range(klen)), iv=bytes(rng.randrange(256) for _ in range(bs)),
+             seqnum=rng.choice([0, 1, 255, 256, 2**32, rng.randrange(2**40)]))
+    c['seq'] = c['seqnum'].to_bytes(8, 'big')
+    L = rng.choice([0, 1, bs - 1, bs, rng.randrange(0, 80), rng.randrange(0, 80)])
+    r = (-(L + ds + 1)) % bs                # minimal padding
+    p = rng.choice([r, r, r + bs, r + 2 * bs, r + bs * rng.randrange(0, (255 - r) // bs + 1)])
+    p = min(p, r + bs * ((255 - r) // bs))
+    build_record(rng, c, L, p, rng.choice(['none', 'none', 'flip-data', 'flip-mac', 'flip-pad', 'last-mac-byte',
+                                           'first-pad-byte', 'padlen-block', 'overlap-aligned']))
+    data = bytearray(c['data'])
+    if c['cls'] == 'none' and rng.random() < 0.25 and len(data) > bs:
+        # keep block alignment: change the pad length byte by a multiple of the block size
+        data[-1] = (data[-1] + bs * rng.randrange(1, 4)) & 0xff
+        c['cls'] = 'padlen-block'
+    if len(data) % bs:
+        data = data[:len(data) - len(data) % bs] or bytearray(bs)
+        c['cls'] += '+realigned'
+    c['data'] = bytes(data)
+    return c
+
+
+def run_record_level(c):
+    """Returns ('ok', plaintext) | ('exc', name) from the real RecordLayer._decryptThenMAC."""
+    from tlslite.recordlayer import RecordLayer, ConnectionState
+    rl = RecordLayer(None)
+    rl.version = tuple(c['ver'])
+    st = ConnectionState()
+    st.encContext = mk_cipher(c['cipher'], c['ckey'], c['iv'])
+    st.macContext = mk_mac(c)
+    st.seqnum = c['seqnum']
+    rl._readState = st
+    body = bytes(c['data'])
+    if tuple(c['ver']) >= (3, 2):
+        body = bytes(c['iv']) + body                      # explicit IV block
+    ct = mk_cipher(c['cipher'], c['ckey'], c['iv']).encrypt(bytearray(body))
+    try:
+        out = rl._decryptThenMAC(c['ty'], bytearray(ct))
+        return ('ok', bytes(out))
+    except Exception as e:  # noqa
+        return ('exc', type(e).__name__)
+
+
+def record_level_expect(c):
+    if py_spec(c):
+        d = bytes(c['data'])
+        return ('ok', d[:len(d) - d[-1] - 1 - c['ds']])
+    return ('exc', 'TLSBadRecordMAC')
+
+
 def case_lit(case, impl):
     ok, code, table = impl
     if case['mac'].startswith('toy'):
@@ -209,6 +301,35 @@ def case_lit(case, impl):
     return '(%s, %s, %s, %s, (%d,%d), %d, %s, %d)' % (
         blit(case['data']), mac, blit(case['seq']), zlit(case['ty']), case['ver'][0], case['ver'][1],
         case['bs'], 'None' if ok is None else '(Some %s)' % vlib.boollit(ok), code)
+
+
+EXPECTED_SITES = [['tlslite/recordlayer.py', '_decryptThenMAC',
+                   ['data', 'self._readState.macContext', 'seqnumBytes', 'recordType', 'self.version',
+                    'self._readState.encContext.block_size']]]
+
+
+def call_sites():
+    """every call of ct_check_cbc_mac_and_pad in tlslite/ with its argument expressions"""
+    import ast
+    out = []
+    root = os.path.join(vlib.REPO, 'tlslite')
+    for dp, dn, fn in os.walk(root):
+        for f in sorted(fn):
+            if not f.endswith('.py'):
+                continue
+            path = os.path.join(dp, f)
+            try:
+                tree = ast.parse(open(path).read())
+            except SyntaxError:
+                out.append([os.path.relpath(path, vlib.REPO), '<syntax error>', []])
+                continue
+            for fd in ast.walk(tree):
+                if isinstance(fd, (ast.FunctionDef, ast.AsyncFunctionDef)):
+                    for n in ast.walk(fd):
+                        if isinstance(n, ast.Call) and getattr(n.func, 'id', getattr(n.func, 'attr', None)) == 'ct_check_cbc_mac_and_pad':
+                            out.append([os.path.relpath(path, vlib.REPO), fd.name,
+                                        [ast.unparse(a) for a in n.args] + ['%s=%s' % (k.arg, ast.unparse(k.value)) for k in n.keywords]])
+    return sorted(out)
 
 
 PREAMBLE = '''
@@ -288,6 +409,26 @@ def run(ctx):
                            'how': 'PYTHONPATH=/repo: call tlslite.utils.constanttime.ct_check_cbc_mac_and_pad on case '
                                   '(mac=hmac.new(key,digestmod) or harness/toys.ToyMac)'})
     ctx.log('impl vs python spec: %d cases' % len(cases))
+    # ---- the call site in the record layer (block size argument, stripping), against the same spec
+    for k in range(400 if quick else 6000):
+        c = record_level_case(ctx.rng)
+        got, want = run_record_level(c), record_level_expect(c)
+        ctx.count('recordlayer._decryptThenMAC-vs-python-spec', 1,
+                  [(tuple(c['ver']), c['mac'], c['cipher'], c['cls'], want[0])],
+                  sample=jcase(c) if k % 131 == 7 else None)
+        if got != want:
+            found = True
+            ctx.violation('decryptThenMAC!=spec:%s:%s:%s' % (c['cipher'], 'ssl3' if tuple(c['ver']) == (3, 0) else 'tls', c['cls']),
+                          'RecordLayer._decryptThenMAC gives %r, the specification %r' % (got, want),
+                          {'case': jcase(c), 'impl': repr(got), 'spec': repr(want), 'level': 'record',
+                           'how': 'harness/props/C12.py run_record_level(case) on /repo'})
+    # ---- call sites of the check, extracted from the source: arguments as modelled
+    sites = call_sites()
+    ctx.cov['call_sites'] = sites
+    if sites != EXPECTED_SITES and not found:
+        ctx.violation('call-sites-changed', 'call sites of ct_check_cbc_mac_and_pad differ from the modelled ones: %r' % (sites,),
+                      {'extracted': sites, 'expected': EXPECTED_SITES}, found_input=False)
+        found = True
     # ---- model (generated) and Coq spec evaluated on the same cases
     if res['model_ok'] and tie_broken is None:
         lits = [case_lit(c, i) for c, i in zip(cases, impls)]
